@@ -63,9 +63,11 @@ FirstDue(c, t0) ==
 (* What the first due time means (documentation of fillPeriod/align and the *)
 (* comment in newWindowByTime: "aligned with Every and greater than         *)
 (* now+Period"), stated without the formula.  Checked as an ASSUME by the   *)
-(* MC modules for every configuration and first time in the bound.          *)
-FirstDueMeaning ==
-    \A c \in Configs, t0 \in 0..MaxTime :
+(* MC modules for every configuration and first time in the bound.  (It has *)
+(* a parameter so that TLC does not pre-evaluate it as a constant in the    *)
+(* trace configuration, where MaxTime is huge.)                             *)
+FirstDueMeaning(maxT) ==
+    \A c \in Configs, t0 \in 0..maxT :
       LET d == FirstDueCode(c, t0) IN
       /\ c.every > 0 => d > t0                                  \* the first point never emits
       /\ c.align /\ c.every > 0 => d % c.every = 0
